@@ -40,6 +40,7 @@ def run(ctx):
         rebuild(ctx, f, fam, builder, cfg)
         old_list(ctx, f, fam, builder, emap, cfg)
         reuse_shape(ctx, f, fam, cfg)
+        reuse_predicate(ctx, f, fam, cfg)
         # a changed rule set is not mistaken for "unchanged": the snapshot the next load is compared with is updated on every path
         # that reports a change, and the enforced list is replaced on every such path (rules of C10, run here for this property)
         from . import rules_C10
@@ -585,6 +586,57 @@ def reuse_shape(ctx, f, fam, cfg, R="C11.reuse-shape"):
                       "%s::is_stat_reusable ignores %s although %s: statistics built for a different %s are handed to the new rule" % (
                           fam, missing, "the field selects the generator (%s)" % SELECTOR_FAMS[fam] if set(missing) & selector else "the statistics constructor is fed from it", missing),
                       pb.loc(), config=cfg)
+
+
+def reuse_predicate(ctx, f, fam, cfg, R="C11.reuse-predicate"):
+    """is_stat_reusable(old, new) may answer true only if every field it looks at is EQUAL in both rules (an ordering test such as
+    `>=` hands a smaller cache / another window to the new rule) and - where the family has such a test - both rules need statistics
+    (otherwise a rule inherits the shared no-op statistics and admits everything)."""
+    adt = "core::%s::rule::Rule" % fam
+    pb = f.raw(f.bodies.get(adt + "::is_stat_reusable"))
+    if not ctx.floor(R, "%s Rule::is_stat_reusable" % fam, 1 if pb else 0, 1):
+        return
+    b = f.view(pb)
+    p1, p2 = b.param_name(1) or "self", b.param_name(2) or "other"
+    flds = [x["name"] for x in f.adts[adt]["variants"][0]["fields"]]
+
+    def cls(atoms, op=None):
+        fs = sorted(a.rsplit(".", 1)[-1] for a in atoms if a.startswith("field:" + adt + "."))
+        who = "a" if ("param:" + p1) in atoms and ("param:" + p2) not in atoms else ("b" if ("param:" + p2) in atoms and ("param:" + p1) not in atoms else "?")
+        if len(fs) == 1 and who != "?":
+            return "%s.%s" % (who, fs[0])
+        return "other:" + ",".join(fs)[:60]
+
+    def oname(t, atoms):
+        n = callee_def(t).rsplit("::", 1)[-1]
+        if n == "need_statistic":
+            return "need_statistic(%s)" % ("a" if ("param:" + p1) in atoms else "b")
+        return n
+    w = D.Walker(f, b, cls, opaque_name=oname)
+    paths = [p for p in w.walk(0, lambda bb, env: None) if p["outcome"][0] == "return"]
+
+    def outcome(p, asg):
+        v = p["env"].get("_0")
+        return "?" if v is None else ("reusable" if D.ev(v, asg) else "not-reusable")
+
+    def expected(asg):
+        for (x, y), r in asg["pairs"].items():
+            if x[:2] in ("a.", "b.") and y[:2] in ("a.", "b.") and x[2:] == y[2:] and x[0] != y[0] and r != "=":
+                return "not-reusable"
+        if any(k.startswith("need_statistic(") and not v for k, v in asg["opaque"].items()):
+            return "not-reusable"
+        return None
+    n, ncon, mism = run_table(ctx, R, b.path, cfg, paths, outcome, expected)
+    pairs = sorted({x[2:] for p in paths for l in p["lits"] + list(p["env"].values()) for e in [l] if False})
+    seen_ns = {x for p in paths for l in list(p["lits"]) + list(p["env"].values()) for x in ("need_statistic(a)", "need_statistic(b)") if x in str(l)}
+    has_ns = seen_ns == {"need_statistic(a)", "need_statistic(b)"}
+    need_ns = fam == "flow"      # the only family with statistics-free rules (the shared no-op pair)
+    ok = not mism and ncon >= 2 and (has_ns or not need_ns)
+    ctx.instance(R, b.path, {"rows": n, "constrained": ncon, "mismatches": mism[:3], "tests_need_statistic": has_ns}, "reusable only if every compared field is equal%s" % (" and both rules need statistics" if need_ns else ""), ok, cfg)
+    if mism or ncon < 2:
+        ctx.violation(R, "%s|%s|not-equality" % (R, fam), "%s::is_stat_reusable can answer true although a compared field differs: %s" % (fam, mism[:2] or "field comparisons not found"), b.loc(), config=cfg)
+    elif need_ns and not has_ns:
+        ctx.violation(R, "%s|%s|need-statistic" % (R, fam), "%s::is_stat_reusable does not require both rules to need statistics: a rule can inherit the shared no-op statistics of a rule that records nothing" % fam, b.loc(), config=cfg)
 
 
 def _contradictory(lits):
